@@ -56,7 +56,11 @@ fn canon_text(v: &RefValue) -> String { let mut r = to_real(v); r.canonicalize()
 
 fn canonical(prop: &str, thorough: bool, seed: u64, rep: &mut Report) {
     let mut rng = Rng(seed.wrapping_mul(0x9E3779B97F4A7C15) | 1);
-    let keys = ["", "a", "b", "aa", "\u{e000}", "\u{10000}", "\u{ffff}", "\u{1F600}", "\u{e9}", "A", "\n", "\u{7f}/", "\u{1f}\"\\", "\u{2028}"];
+    // (short keys that separate UTF-16 order from code-point order, and long keys that share a prefix
+    // longer than any inline capacity -- 16, 32 units -- and differ only after it)
+    let keys = ["", "a", "b", "aa", "\u{e000}", "\u{10000}", "\u{ffff}", "\u{1F600}", "\u{e9}", "A", "\n", "\u{7f}/", "\u{1f}\"\\", "\u{2028}",
+        "urn:example:item:b", "urn:example:item:a", "urn:example:item:", "0123456789abcdef", "0123456789abcdefg", "0123456789abcde\u{1F600}b", "0123456789abcde\u{1F600}a",
+        "0123456789abcdef0123456789abcdef-z", "0123456789abcdef0123456789abcdef-y", "0123456789abcdef0123456789abcde\u{e000}", "0123456789abcdef0123456789abcde\u{10000}"];
     let num_ident = |s: &str| -> String { NUMBERS.iter().find(|(a, _)| *a == s).map(|(_, b)| b.to_string()).unwrap_or(s.to_string()) };
     rep.rule = "objects over keys that separate UTF-16 order from code-point order (U+E000, U+FFFF vs non-BMP), nested two levels, all number spellings of the RFC 8785 table; compared with: sort by UTF-16 units at every level + reference compact serializer; non-trivial = at least two members".into();
     rep.bounds = vec![("keys".into(), keys.len().to_string()), ("numbers".into(), NUMBERS.len().to_string())];
@@ -234,7 +238,35 @@ fn navigation(thorough: bool, seed: u64, rep: &mut Report) {
             match (r, expect) { (Ok(_), None) => {}, (Err(e), Some(off)) => if e.offset != off { fail(rep, "TryFromJson reports the kind mismatch at the offending fragment", format!("got {} expected {}", e.offset, off)); }, (Ok(_), Some(off)) => fail(rep, "TryFromJson accepts a wrong kind", format!("expected error at {}", off)), (Err(e), None) => fail(rep, "TryFromJson rejects a well-kinded value", format!("at {}", e.offset)) }
         }
     }
+    // conversions of objects: every entry is converted, also those a later duplicate of the key
+    // overrides; a wrong-kind value planted at every position is reported at its own index
+    rep.checks.push("C11: TryFromJson for BTreeMap / nested Vec: wrong kind planted at every position, duplicate keys".into());
+    let keysets: [&[&str]; 6] = [&["a"], &["a", "b"], &["a", "a"], &["a", "b", "a"], &["b", "a", "a", "c"], &["a", "a", "a"]];
+    for ks in keysets.iter() { for planted in 0..=ks.len() { for wrong in ["true", "[1]", "{\"x\":1}", "\"s\""] { for nest in 0..2 {
+        let members: Vec<String> = ks.iter().enumerate().map(|(i, k)| format!("\"{}\": {}", k, if i == planted { wrong.to_string() } else { (i + 1).to_string() })).collect();
+        let obj = format!("{{ {} }}", members.join(", "));
+        let doc = if nest == 0 { obj.clone() } else { format!("{{\"m\": [{{}}, {}], \"n\": []}}", obj) };
+        let (v, cm) = match Value::parse_str(&doc) { Ok(x) => x, Err(_) => continue };
+        rep.eval(true, fnv(doc.as_bytes()));
+        let r: Result<(), (usize, String)> = if nest == 0 { <std::collections::BTreeMap<String, TNum> as TryFromJson>::try_from_json(&v, &cm).map(|_| ()).map_err(|e| (e.0, e.1)) } else { <std::collections::BTreeMap<String, Vec<std::collections::BTreeMap<String, TNum>>> as TryFromJson>::try_from_json(&v, &cm).map(|_| ()).map_err(|e| (e.0, e.1)) };
+        match (r, planted < ks.len()) {
+            (Ok(()), false) => {},
+            (Err((off, _)), true) => { let e = cm.get(off).unwrap(); let text = &doc[e.span.start()..e.span.end()]; if text != wrong { rep.violation("TryFromJson reports the kind mismatch at the offending fragment", "tryfrom-map", doc.clone(), format!("reported index {} whose text is {:?}, planted {:?}", off, text, wrong)); } },
+            (Ok(()), true) => rep.violation("TryFromJson accepts a wrong kind", "tryfrom-map", doc.clone(), format!("planted {:?} at member {}", wrong, planted)),
+            (Err((off, k)), false) => rep.violation("TryFromJson rejects a well-kinded value", "tryfrom-map", doc.clone(), format!("at {} ({})", off, k)),
+        }
+    } } } }
     rep.sample(docs[0].clone());
+}
+
+/// a number leaf whose conversion error carries the code-map index (for the BTreeMap conversions)
+struct TNum;
+struct TErr(usize, String);
+impl From<json_syntax::code_map::Mapped<json_syntax::Unexpected>> for TErr { fn from(e: json_syntax::code_map::Mapped<json_syntax::Unexpected>) -> Self { TErr(e.offset, format!("{:?}", e.value.found)) } }
+impl From<json_syntax::code_map::Mapped<std::convert::Infallible>> for TErr { fn from(e: json_syntax::code_map::Mapped<std::convert::Infallible>) -> Self { match e.value {} } }
+impl json_syntax::TryFromJson for TNum {
+    type Error = TErr;
+    fn try_from_json_at(json: &Value, _: &json_syntax::CodeMap, offset: usize) -> Result<Self, TErr> { match json { Value::Number(_) => Ok(TNum), other => Err(TErr(offset, format!("{:?}", other.kind()))) } }
 }
 
 fn same_frag(a: &json_syntax::FragmentRef, b: &json_syntax::FragmentRef) -> bool {
